@@ -470,4 +470,266 @@ theorem short_tail_len {n : Nat} {st : St} {d : Bytes} (hs : Short n st d) :
       simp only [mu] at h0
       omega
 
+/-! ### the sharp bound: what a run can still do with at most one byte left -/
+
+theorem splitAtScalar_one (c : UInt8) : splitAtScalar [c] = some ([c], []) := by
+  rw [splitAtScalar_eq_fallback sse_eq_tab]
+  have := findFirst_le isBoundary [c]
+  simp only [List.length_cons, List.length_nil] at this
+  have hm : max (findFirst isBoundary [c]) 1 = 1 := by omega
+  simp [splitAtScalarFallback, splitAtChecked, hm]
+
+theorem lexValue_one {tape tape' : List Tok} {c : UInt8} {r : Bytes} (h : lexValue tape [c] = .ok (tape', r)) :
+    r = [] := by
+  unfold lexValue at h
+  simp only at h
+  split at h
+  · next h34 =>
+    subst h34
+    unfold parseQuoteTok at h
+    rw [parseQuoteScalar_eq_fallback] at h
+    simp [parseQuoteScalarFallback, quoteClose] at h
+  · split at h
+    · unfold parseVariableTok at h
+      simp [parseScalarTok, splitAtScalar_one] at h
+      exact h.2
+    · simp [parseScalarTok, splitAtScalar_one] at h
+      exact h.2
+
+theorem stepKey_len1 {st st' : St} {c : UInt8} {d' : Bytes} (h : stepKey st [c] = .cont st' d') :
+    st'.tape.length ≤ st.tape.length + 1 := by
+  unfold stepKey at h
+  simp only at h
+  split at h
+  · split_cont h
+    all_goals
+      simp only [Step.cont.injEq] at h
+      obtain ⟨rfl, _⟩ := h
+      try (have e1 := setTok_len (by assumption))
+      simp at *
+      try omega
+  · split at h
+    · simp [skipWs, skipWsAux] at h
+    · split at h
+      · simp [paramDef] at h
+      · split at h
+        · next hlex =>
+          simp only [Step.cont.injEq] at h
+          obtain ⟨rfl, _⟩ := h
+          have := lexValue_len hlex
+          simp; omega
+        · cases ‹Fail› <;> simp [Step.fail] at h
+
+theorem stepKvs_len1 {st st' : St} {c : UInt8} {d' : Bytes} (h : stepKvs st [c] = .cont st' d') :
+    st'.tape.length ≤ st.tape.length + 1 := by
+  unfold stepKvs at h
+  split_cont h
+  all_goals
+    simp only [Step.cont.injEq] at h
+    obtain ⟨rfl, _⟩ := h
+    try (have e2 := insertBeforeLast_len (by assumption))
+    simp at *
+    try omega
+
+theorem stepObjectValue_len1 {st st' : St} {c : UInt8} {d' : Bytes} (h : stepObjectValue st [c] = .cont st' d') :
+    st'.tape.length ≤ st.tape.length + 1 := by
+  unfold stepObjectValue at h
+  split_cont h
+  · simp only [Step.cont.injEq] at h
+    obtain ⟨rfl, _⟩ := h
+    simp
+  · next hlex =>
+    simp only [Step.cont.injEq] at h
+    obtain ⟨rfl, _⟩ := h
+    have := lexValue_len hlex
+    simp; omega
+  · cases ‹Fail› <;> simp [Step.fail] at h
+
+theorem stepParseOpen_len1 {st st' : St} {c : UInt8} {d' : Bytes} (h : stepParseOpen st [c] = .cont st' d') :
+    st'.tape.length ≤ st.tape.length + 1 := by
+  unfold stepParseOpen at h
+  simp only at h
+  split at h
+  · split at h
+    · contradiction
+    · split at h
+      · contradiction
+      · next hset =>
+        simp only [Step.cont.injEq] at h
+        obtain ⟨rfl, _⟩ := h
+        have := setTok_len hset
+        simp; omega
+  · split at h
+    · split at h
+      · contradiction
+      · unfold paramDef at h
+        rw [if_pos (by simp)] at h
+        contradiction
+    · split at h
+      · simp only [skipWs, skipWsAux] at h
+        contradiction
+      · split at h
+        · cases ‹Fail› <;> simp [Step.fail] at h
+        · next tape1 rest' hlex =>
+          have := lexValue_one hlex
+          subst this
+          simp [skipWs, skipWsAux] at h
+
+/-- one iteration on a single remaining byte adds at most one token — except the first operator of
+an array (`MixedContainer` and the operator: two tokens), after which ArrayValue is left with no
+input, which the end of the input does not accept -/
+theorem stepArrayValue_len1 {n : Nat} {st st' : St} {c : UInt8} {d' : Bytes} (hs : st.state = .arrayValue)
+    (h : stepArrayValue n st [c] = .cont st' d') :
+    st'.tape.length ≤ st.tape.length + 1 ∨ (st'.state = .arrayValue ∧ d' = []) := by
+  unfold stepArrayValue at h
+  simp only at h
+  split at h
+  · simp only [Step.cont.injEq] at h
+    obtain ⟨rfl, _⟩ := h
+    left; simp
+  · split at h
+    · split_cont h
+      next hset =>
+      simp only [Step.cont.injEq] at h
+      obtain ⟨rfl, _⟩ := h
+      have := setTok_len hset
+      left; simp; omega
+    · split at h
+      · split at h
+        · next hlex =>
+          simp only [Step.cont.injEq] at h
+          obtain ⟨rfl, _⟩ := h
+          have := lexValue_len hlex
+          left; simp; omega
+        · cases ‹Fail› <;> simp [Step.fail] at h
+      · split at h
+        · right
+          unfold stepArrayOp at h
+          split at h
+          · contradiction
+          · split at h
+            · next o r hop =>
+              simp only [Step.cont.injEq] at h
+              obtain ⟨rfl, rfl⟩ := h
+              refine ⟨?_, ?_⟩
+              · exact hs
+              · unfold lexOperator at hop
+                simp only [List.head?_nil, List.tail_nil] at hop
+                repeat' (split at hop)
+                all_goals simp_all
+            · contradiction
+        · split at h
+          · next hlex =>
+            simp only [Step.cont.injEq] at h
+            obtain ⟨rfl, _⟩ := h
+            have := parseScalarTok_len hlex
+            left; simp; omega
+          · cases ‹Fail› <;> simp [Step.fail] at h
+
+theorem stepAt_len1 {n : Nat} {st st' : St} {c : UInt8} {d' : Bytes} (h : stepAt n st [c] = .cont st' d') :
+    st'.tape.length ≤ st.tape.length + 1 ∨ (st'.state = .arrayValue ∧ d' = []) := by
+  unfold stepAt at h
+  cases hs : st.state <;> simp only [hs] at h
+  · exact .inl (stepKey_len1 h)
+  · exact .inl (stepKvs_len1 h)
+  · exact .inl (stepObjectValue_len1 h)
+  · exact stepArrayValue_len1 hs h
+  · exact .inl (stepParseOpen_len1 h)
+
+theorem atEof_key {st : St} {T : List Tok} {b : Bool} (h : atEof st = .ok T b) : st.state = .key := by
+  unfold atEof at h
+  split at h
+  · simp at h
+  · next hs => simpa using hs
+
+/-- with at most one byte of input left a successful run adds at most three tokens: one per
+iteration (at most two iterations: KeyValueSeparator may hand its byte on) and the `End` of the EOF
+tolerance -/
+theorem one_byte_tail {n : Nat} : ∀ (fuel : Nat) (st : St) (d : Bytes) (T : List Tok) (b : Bool),
+    d.length ≤ 1 → run n fuel st d = .ok T b → T.length ≤ st.tape.length + 2 + flag st.state
+  | 0, _, _, _, _, _, h => by simp [run] at h
+  | fuel + 1, st, d, T, b, hd, h => by
+    simp only [run, step] at h
+    cases hsk : skipWs d with
+    | none =>
+      simp only [hsk] at h
+      have := (atEof_len_le h).2
+      omega
+    | some x =>
+      simp only [hsk] at h
+      obtain ⟨c, cs, rfl, _, _, hlen⟩ := skipWsAux_some d false x hsk
+      have hcs : cs = [] := by
+        cases cs with
+        | nil => rfl
+        | cons a as => simp at hlen; omega
+      subst hcs
+      cases hstep : stepAt n st [c] with
+      | done r =>
+        simp only [hstep] at h
+        subst h
+        exact absurd hstep stepAt_not_ok
+      | cont st1 d1 =>
+        simp only [hstep] at h
+        have hprog := stepAt_prog hstep
+        rcases stepAt_len1 hstep with hl | ⟨hsa, hd1⟩
+        · rcases hprog with hlt | ⟨heq, hf1, hf0⟩
+          · -- the byte is consumed: the next iteration sees the end of the input
+            have hd1 : d1 = [] := by
+              cases d1 with
+              | nil => rfl
+              | cons a as => simp at hlt
+            subst hd1
+            cases fuel with
+            | zero => simp [run] at h
+            | succ f =>
+              simp only [run, step, skipWs, skipWsAux] at h
+              have := (atEof_len_le h).2
+              omega
+          · -- the byte is handed on (KeyValueSeparator / ParseOpen): one more iteration like this
+            have := one_byte_tail fuel st1 d1 T b (by simp at heq; omega) h
+            omega
+        · subst hd1
+          cases fuel with
+          | zero => simp [run] at h
+          | succ f =>
+            simp only [run, step, skipWs, skipWsAux] at h
+            have := atEof_key h
+            rw [hsa] at this; cases this
+
+/-- behind the split point the truncated run adds at most SIX tokens: three in the iteration that
+leaves fewer than two bytes (a parameter block `[[x] k` pushes three), then at most three more
+(`one_byte_tail`).  The bound is attained: `a={[[x] k }` ends with `Parameter, Object, MixedContainer,
+Unquoted, End, End` behind `a, Object`. -/
+theorem short_tail_sharp {n : Nat} {st : St} {d : Bytes} (hs : Short n st d) :
+    ∀ (fuel : Nat) (T : List Tok) (b : Bool), run n fuel st d = .ok T b → T.length ≤ st.tape.length + 6
+  | 0, _, _, h => by simp [run] at h
+  | fuel + 1, T, b, h => by
+    simp only [run] at h
+    cases hstep : step n st d with
+    | done r =>
+      simp only [hstep] at h
+      subst h
+      unfold step at hstep
+      cases hsk : skipWs d with
+      | none =>
+        simp only [hsk, Step.done.injEq] at hstep
+        have := (atEof_len_le hstep).2
+        omega
+      | some x =>
+        simp only [hsk] at hstep
+        exact absurd hstep stepAt_not_ok
+    | cont st1 d1 =>
+      simp only [hstep] at h
+      have hd1 := hs st1 d1 hstep
+      have h0 := one_byte_tail fuel st1 d1 T b (by omega) h
+      have h3 : st1.tape.length ≤ st.tape.length + 3 := by
+        unfold step at hstep
+        cases hsk : skipWs d with
+        | none => simp [hsk] at hstep
+        | some x =>
+          simp only [hsk] at hstep
+          exact stepAt_len_le hstep
+      have hfl : flag st1.state ≤ 1 := by cases st1.state <;> simp [flag]
+      omega
+
 end Jomini.TextTape
